@@ -39,6 +39,12 @@ CLAIMS = {
         "Trusts the generators' coverage of each constraint grammar; one listed finding (component equal to 2^63-2) is stepped around by a narrow class.",
         "DESIGN.md §7 C11",
     ),
+    "C03": (
+        "differential property-based testing (rapid) against live reference implementations (node-semver satisfies, Rust VersionReq, packaging SpecifierSet, Maven VersionRange) with boundary-derived candidates",
+        "Generated-input search with an independent oracle: requirements from each ecosystem's range grammar are matched against candidates derived from the requirement's own bounds (plus random versions) by the library (Constraint.Match, MatchVersion, resolve.MatchRequirement) and by the ecosystem's implementation side by side; answers must coincide, and a requirement the reference shows non-empty must parse. Holds on everything explored; not a proof.",
+        "Trusts the installed reference tools (node-semver 7.x cross-checked with 5.7.1, packaging 26.x cross-checked with 21.3, semver crate 1.0.28, maven-artifact 3.8.7 on '-'-qualifier candidates >= 0). Four listed findings are stepped around by narrow classes.",
+        "DESIGN.md §7 C03, §4, §6.6",
+    ),
 }
 
 NOT_YET = "check under construction in this session (not yet claimed)"
